@@ -4,6 +4,7 @@ import (
 	"encoding"
 	stderrors "errors"
 	"fmt"
+	"math"
 	"net"
 	"net/url"
 	"reflect"
@@ -132,6 +133,28 @@ func DebugHook(f reflect.Type, t reflect.Type, data interface{}) (p interface{},
 		zap.String("data", fmt.Sprint(data)),
 	)
 	return
+}
+
+var ErrNotInteger = stderrors.New("number is not an integer")
+
+// WholeNumberHook rejects a number with a fractional part that is given for an integer
+// (or time.Duration) field: the decoder itself would silently truncate it (times: 2.7 -> 2).
+// Whole floats stay accepted, JSON configs carry every number as float64.
+func WholeNumberHook(f reflect.Kind, t reflect.Kind, data interface{}) (interface{}, error) {
+	if f != reflect.Float32 && f != reflect.Float64 {
+		return data, nil
+	}
+	switch t {
+	case reflect.Int, reflect.Int8, reflect.Int16, reflect.Int32, reflect.Int64,
+		reflect.Uint, reflect.Uint8, reflect.Uint16, reflect.Uint32, reflect.Uint64:
+	default:
+		return data, nil
+	}
+	v := reflect.ValueOf(data).Float()
+	if math.IsInf(v, 0) || v != math.Trunc(v) {
+		return nil, errors.Wrapf(ErrNotInteger, "%v", data)
+	}
+	return data, nil
 }
 
 // VariableInjectHook injects values into ${VAR_NAME} placeholders
